@@ -5,28 +5,82 @@ import (
 	"strings"
 )
 
+// declaredName returns the name declared on a line that starts with the given keywords, for example "doc" for
+// "  type doc" with the keyword "type", or "viewer" for "define viewer: [user]" with the keyword "define".
+// Keywords and name may be separated by any amount of blanks; the name ends at the first blank, ':' or '('.
+func declaredName(line string, keywords ...string) (string, bool) {
+	fields := strings.Fields(line)
+	if len(fields) <= len(keywords) {
+		return "", false
+	}
+
+	for i, keyword := range keywords {
+		if fields[i] != keyword {
+			return "", false
+		}
+	}
+
+	name := fields[len(keywords)]
+	if end := strings.IndexAny(name, ":("); end != -1 {
+		name = name[:end]
+	}
+
+	return name, true
+}
+
 func GetConditionLineNumber(conditionName string, lines []string) int {
 	return slices.IndexFunc(lines, func(line string) bool {
-		return strings.HasPrefix(strings.TrimSpace(line), "condition "+conditionName)
+		name, ok := declaredName(line, "condition")
+
+		return ok && name == conditionName
 	})
 }
 
 func GetTypeLineNumber(typeName string, lines []string) int {
 	return slices.IndexFunc(lines, func(line string) bool {
-		return strings.HasPrefix(strings.TrimSpace(line), "type "+typeName)
+		name, ok := declaredName(line, "type")
+
+		return ok && name == typeName
 	})
 }
 
 func GetExtendedTypeLineNumber(typeName string, lines []string) int {
 	return slices.IndexFunc(lines, func(line string) bool {
-		return strings.HasPrefix(strings.TrimSpace(line), "extend type "+typeName)
+		name, ok := declaredName(line, "extend", "type")
+
+		return ok && name == typeName
 	})
 }
 
 func GetRelationLineNumber(relation string, lines []string) int {
 	return slices.IndexFunc(lines, func(line string) bool {
-		return strings.HasPrefix(strings.TrimSpace(line), "define "+relation)
+		name, ok := declaredName(line, "define")
+
+		return ok && name == relation
 	})
+}
+
+// declarationOffset returns the position just behind the keyword(s) that open a declaration line
+// ("type", "extend type", "define", "condition"), so that the declared name can be searched for behind them.
+func declarationOffset(line string) int {
+	offset := 0
+	skipWord := func() {
+		for offset < len(line) && (line[offset] == ' ' || line[offset] == '\t') {
+			offset++
+		}
+
+		for offset < len(line) && line[offset] != ' ' && line[offset] != '\t' {
+			offset++
+		}
+	}
+
+	skipWord()
+
+	if strings.TrimSpace(line[:offset]) == "extend" {
+		skipWord()
+	}
+
+	return offset
 }
 
 type StartEnd struct {
@@ -48,10 +102,14 @@ func ConstructLineAndColumnData(lines []string, lineIndex int, symbol string) (S
 
 	rawLine := lines[lineIndex]
 
-	wordIdx := strings.Index(rawLine, symbol)
+	// look for the name behind the leading keyword: the keyword itself may contain it (type "t", condition "co")
+	offset := declarationOffset(rawLine)
 
-	if wordIdx == -1 {
-		wordIdx = 0
+	wordIdx := strings.Index(rawLine[offset:], symbol)
+	if wordIdx != -1 {
+		wordIdx += offset
+	} else {
+		wordIdx = max(strings.Index(rawLine, symbol), 0)
 	}
 
 	return StartEnd{
